@@ -344,7 +344,7 @@ def run(tier):
         scen.install_json_hooks(stubs)
         part2 = 0
         for n in ((2, 3) if tier == "quick" else (2, 3, 4)):
-            for variant in (0, 1, 2):
+            for variant in (0, 1, 2, 3):
                 for fmt in ("df", "dict", "json"):
                     part2 += 1
                     r = c13_run.check(n, variant, fmt, _G["timeout"], spec_cell)
